@@ -70,11 +70,11 @@ pub fn check(id: &'static str) -> Check {
 
 fn total_cases(f: Focus, t: Tier) -> u64 {
     match f {
-        Focus::C02 => t.pick(6000, 120_000),
-        Focus::C05 => t.pick(6000, 120_000),
-        Focus::C12 => t.pick(4000, 80_000),
-        Focus::C13 => t.pick(5000, 100_000),
-        Focus::C19 => t.pick(3000, 60_000),
+        Focus::C02 => t.pick(12_000, 240_000),
+        Focus::C05 => t.pick(15_000, 300_000),
+        Focus::C12 => t.pick(8_000, 160_000),
+        Focus::C13 => t.pick(20_000, 400_000),
+        Focus::C19 => t.pick(20_000, 400_000),
     }
 }
 
@@ -127,6 +127,7 @@ fn compare_hint_recovery(e: &mut Eng, ctx: &Ctx, case: u64, out: &mut Out) -> Re
     let _ = std::fs::remove_dir_all(&a);
     let _ = std::fs::remove_dir_all(&b);
     out.count("directory_pairs_compared", 1);
+    out.evaluations += 1;
     out.count("hint_files_present", hint_files);
     out.count("hint_entries_read", hint_entries);
     if hint_entries > 0 {
@@ -146,6 +147,7 @@ fn merge_with_size_oracle(e: &mut Eng, ctx: &Ctx, case: u64, out: &mut Out) -> R
     };
     let info = e.do_merge()?;
     out.count("merges", 1);
+    out.evaluations += 1;
     if info.size_after > info.size_before {
         return fail("merge-grew-store", format!("merge grew the data files from {} to {} bytes (files before {:?}, after {:?})", info.size_before, info.size_after, info.before, info.after));
     }
@@ -344,7 +346,10 @@ fn episode(ctx: &Ctx, f: Focus, case: u64, out: &mut Out) -> Result<(), (Fail, S
         Ok(())
     })();
     e.close();
-    out.evaluations += 1;
+    if f != Focus::C12 && f != Focus::C13 {
+        out.evaluations += 1;
+    }
+    out.count("episodes", 1);
     out.count("ops", e.trace.len() as u64);
     out.count("reopens", e.f.reopens);
     out.count("overwrites", e.f.overwrites);
@@ -416,6 +421,7 @@ fn owns(f: Focus, sig: &str) -> bool {
 fn worker(ctx: &Ctx, out: &mut Out) {
     let f = Focus::of(&ctx.id);
     for case in ctx.cases(total_cases(f, ctx.tier)) {
+        ctx.checkpoint(out);
         ctx.breadcrumb(case, "episode");
         let r = std::panic::catch_unwind(std::panic::AssertUnwindSafe(|| episode(ctx, f, case, out)));
         match r {
